@@ -263,9 +263,41 @@ def random_edits(rng, root, n):
     return done
 
 
-def check_edits(rec, rng, a, b, who, case):
-    """Edits on a must not change b."""
+def cross_calls(rec, a, b, who, case):
+    """Containers of one tree are handed the corresponding children of the other tree (deep-equal, but other objects):
+    remove() has to refuse them and the other tree keeps its children and their parents."""
+    pairs = []
+
+    def walk(x, y):
+        if kind(x) in ("doc", "sec") and kind(y) == kind(x):
+            for cx, cy in zip(list(x.sections), list(y.sections)):
+                pairs.append((x, cy, y))
+                walk(cx, cy)
+            if kind(x) == "sec":
+                for cx, cy in zip(list(x.properties), list(y.properties)):
+                    pairs.append((x, cy, y))
+    walk(a, b)
+    for cont, foreign, owner in pairs[:6]:
+        rec.monitor("cross-call")
+        try:
+            cont.remove(foreign)
+        except Exception:
+            refused = True
+        else:
+            refused = False
+        listed = any(c is foreign for c in list(owner.sections) + (list(owner.properties) if kind(owner) == "sec" else []))
+        if not refused or not listed or foreign.parent is not owner:
+            rec.violation("remove-of-the-other-trees-child:%s" % ("accepted" if not refused else "changed-the-other-tree"),
+                          "%s.remove(child of the %s): refused=%s still listed there=%s parent kept=%s" % (
+                              who, "other tree", refused, listed, foreign.parent is owner), case)
+            return
+
+
+def check_edits(rec, rng, a, b, who, case, peer=None):
+    """Edits on a must not change b (peer = the object a is the copy / the original of)."""
     rec.monitor("edit")
+    if peer is not None:
+        cross_calls(rec, a, peer, who, case)
     before = model.model_of(b)
     acts = random_edits(rng, a, rng.randrange(3, 12))
     d = model.diff(before, model.model_of(b))
@@ -306,9 +338,9 @@ def run_case(case, ctx):
                     cp = check_clone(rec, o, children, keep_id, c)
                     if cp is not None and nviol == sum(v["count"] for v in rec.violations.values()):
                         rng = ctx.rng("edit", case.get("i", 0), i, children, keep_id)
-                        check_edits(rec, rng, cp, o if k == "doc" else doc, "copy", c)
+                        check_edits(rec, rng, cp, o if k == "doc" else doc, "copy", c, peer=o)
                         cp2 = o.clone(keep_id=keep_id) if k == "prop" else o.clone(children=children, keep_id=keep_id)
-                        check_edits(rec, rng, o, cp2, "original", c)
+                        check_edits(rec, rng, o, cp2, "original", c, peer=cp2)
         # fresh document for the leaf / values checks (the edit monitors changed this one)
         doc = gen.build_doc(spec)
         ns = nodes(doc)
@@ -354,7 +386,8 @@ def check_template(ctx, case, sdir):
                             continue
                         rec.violation("clone_section/raised-%s" % type(exc).__name__, repr(exc), case)
                         continue
-                    cached = h[url][sec.name]
+                    # (the cached original is looked up here by name and position, not through the library's own lookup)
+                    cached = [s_ for s_ in list(h[url].sections) if s_.__dict__.get("_name") == sec.name][0]
                     rec.monitor("alias")
                     rec.case(core.h(["template", enc(no_ids(spec)), sec.name, children, keep_id]), True)
                     if set(reach(cached)) & set(reach(cp)):
@@ -389,6 +422,9 @@ def run(ctx):
         for _, n_ in model.walk(spec):
             if n_["k"] in ("sec", "prop") and rng.random() < 0.06:
                 n_["name"] = n_["id"]          # created without a name: the id serves as name (and stays the name of a copy)
+        if i % 20 == 0 and len(spec["sections"]) > 1:
+            # the type of an earlier top level Section reads like the name of a later one (names address, types do not)
+            spec["sections"][0]["type"] = spec["sections"][-1]["name"]
         case = {"spec": enc(spec), "i": i, "detached": i % 50 == 0}
         run_case(case, ctx)
         if i % 10 == 0:
